@@ -190,11 +190,19 @@ def run_shard(shard: dict, ctx, res, only=None) -> None:
                         res.violation({"site": "stats.estimate_scale", "symptom": "scale(a*x+b) != |a|*scale(x)", "scale": sm, "negative_a": a < 0}, case,
                                       f"shape {shape} axis {axis} a={a} b={b}: element {k}: {sc2.ravel()[k]!r} vs {abs(a) * np.broadcast_to(sc, x.shape).ravel()[k]!r}")
                         continue
-                    zdev = float(np.max(np.abs(z2 - np.sign(a) * z)[safe] / np.maximum(1.0, np.abs(z[safe]))))
-                    res.maximum("zscore_equivariance_dev", zdev)
-                    if zdev > 1e-4:
+                    # float32 error model: estimate_zscore casts a*x+b to float32 first, a relative perturbation
+                    # rel_in = eps32*|y|max/(|a|*spread) of the data in units of the lane spread. It moves the numerator
+                    # by rel_in*spread and the scale estimate by up to rel_in*(spread/scale)^2 relatively (the worst
+                    # conditioned estimator, diffcov, is a square root of a difference of products of differences).
+                    scx = np.where(safe, np.broadcast_to(sc, x.shape), 1.0)
+                    spr = np.where(safe, spread if sc is not None else 1.0, 1.0)
+                    rel_in = float(np.finfo(np.float32).eps) * np.max(np.abs(y)) / (abs(a) * spr)
+                    tol_el = 1e-4 * np.maximum(1.0, np.abs(z)) + 16 * rel_in * (spr / scx) + 16 * np.abs(z) * rel_in * (spr / scx) ** 2
+                    zdev = float(np.max((np.abs(z2 - np.sign(a) * z) / tol_el)[safe]))
+                    res.maximum("zscore_equivariance_dev_over_tol", zdev)
+                    if zdev > 1:
                         res.violation({"site": "stats.estimate_zscore", "symptom": "z(a*x+b) != sign(a)*z(x)", "scale": sm, "loc": lm, "negative_a": a < 0}, case,
-                                      f"shape {shape} axis {axis} a={a} b={b}: max relative deviation {zdev:.3e}")
+                                      f"shape {shape} axis {axis} a={a} b={b}: max deviation / tolerance = {zdev:.3e}")
                         continue
                     res.outcome("equivariance/ok")
                     res.nontrivial += 1
